@@ -299,8 +299,16 @@ func writeGroupIni(cmd *Command, group *Group, namespace string, writer io.Write
 	}
 }
 
+// iniNeedsQuote reports whether a string value has to be written as a quoted
+// literal in order to be read back unchanged: it contains unprintable
+// characters, it has surrounding white space (which the reader trims) or it
+// starts with a double quote (which the reader takes for a quoted literal).
+func iniNeedsQuote(s string) bool {
+	return !isPrint(s) || strings.TrimSpace(s) != s || (len(s) != 0 && s[0] == '"')
+}
+
 func writeOption(writer io.Writer, optionName string, optionType reflect.Kind, optionKey string, optionValue string, commentOption bool, forceQuote bool) {
-	if forceQuote || (optionType == reflect.String && !isPrint(optionValue)) {
+	if forceQuote || (optionType == reflect.String && iniNeedsQuote(optionValue)) {
 		optionValue = strconv.Quote(optionValue)
 	}
 
